@@ -3,5 +3,5 @@ CONSTANTS
   MBs <- GMBsQuick
   Mode = "seq"
 VIEW EdgeView
-INVARIANT EmitAll
+ACTION_CONSTRAINT EmitEdge
 CHECK_DEADLOCK FALSE
